@@ -19,6 +19,33 @@ type End struct {
 	MainStuck bool // thread 0 (the scenario body) did not return
 }
 
+// LibSites is the sorted set of library functions in which unfinished threads
+// are parked (harness frames and anonymous helper goroutines are left out):
+// the stable part of a stuck signature.
+func (e *End) LibSites() string {
+	seen := map[string]bool{}
+	var s []string
+	for _, t := range e.Stuck {
+		site := t.Site
+		if site == "harness" || site == "not-started" || site == "?" {
+			continue
+		}
+		if i := strings.LastIndex(site, ".func"); i >= 0 {
+			continue
+		}
+		k := t.Op + "@" + site
+		if !seen[k] {
+			seen[k] = true
+			s = append(s, k)
+		}
+	}
+	sort.Strings(s)
+	if len(s) == 0 {
+		return "harness-only"
+	}
+	return strings.Join(s, ",")
+}
+
 // NonTerminating reports a livelock: step horizon exceeded or an infinite
 // fair cycle detected.
 func (e *End) NonTerminating() bool { return e.Status == Horizon || e.Status == Spin }
@@ -279,12 +306,20 @@ func (e *explorer) confirm(x *Exec, end *End, tag, detail string) Failure {
 	}
 	f := Failure{Instance: e.cfg.Name, Tag: tag, Detail: detail, Bound: devs(x.points, len(x.points)), Choices: choices, Status: end.Status.String()}
 	for i := 0; i < 5; i++ {
-		x2, _, tag2, _ := e.run2(choices, true, true)
+		x2, _, tag2, _ := e.run2(choices, true, e.cfg.NoSpin)
 		if tag2 != tag {
 			e.ndet = fmt.Sprintf("violation %q of %s not reproducible on replay %d (got %q): nondeterminism not captured", tag, e.cfg.Name, i, tag2)
 			break
 		}
 		f.Trace = x2.trace
+	}
+	if end.Status == Spin && e.ndet == "" {
+		// a spin cut is only an accelerated horizon: the same schedule without
+		// the detector must really fail to terminate.
+		_, end2, _, _ := e.run2(choices, false, true)
+		if !end2.NonTerminating() {
+			e.ndet = fmt.Sprintf("spin verdict of %s (%q) not confirmed against the step horizon (got %s)", e.cfg.Name, tag, end2.Status)
+		}
 	}
 	if len(f.Trace) > 400 {
 		f.Trace = append(f.Trace[:200:200], f.Trace[len(f.Trace)-200:]...)
